@@ -397,6 +397,112 @@ def builder_oracle(ctx):
                 )
 
 
+def world_correspondence(ctx):
+    """Worker level (coq/C16/World.v): each numba kernel is called directly with world_rank=r, world_size=W and
+    the rows it actually visited (read off its COO output) are compared, inside Coq, with the model's
+    `stride r D W`; the parallel build's row sequence with `all_strides D W`; the private-buffer sum of
+    matvec_numba workers with the serial kernel (exact integer data)."""
+    import quimb.operator as qop
+    from quimb.operator import configcore
+    from harness.common import natlist
+
+    rng = np.random.default_rng(ctx.seed + 161616)
+    header = ("From Coq Require Import ZArith Arith List Bool.\nFrom QV Require Import C16.World.\nImport ListNotations.\n"
+              "Fixpoint nl_eqb (a b : list nat) : bool := match a, b with [] , [] => true | x :: a', y :: b' => "
+              "Nat.eqb x y && nl_eqb a' b' | _, _ => false end.\n"
+              "Definition mem (x : nat) (l : list nat) : bool := existsb (Nat.eqb x) l.\n")
+    cases, info = [], {}
+
+    def add(expr, d):
+        cid = len(cases)
+        cases.append((cid, expr))
+        info[cid] = d
+
+    def uniq_in_order(a):
+        out = []
+        for v in a.tolist():
+            if not out or out[-1] != v:
+                out.append(int(v))
+        return out
+
+    Ls = [3, 4] if ctx.quick else [2, 3, 4, 5, 6]
+    Ws = [1, 2, 3, 5, 7] if ctx.quick else [1, 2, 3, 4, 5, 7, 8, 11, 16, 19]
+    for L, sym in itertools.product(Ls, [None, "Z2", "U1"]):
+        H = qop.SparseOperatorBuilder()
+        for i in range(L - 1):
+            H += 1.0, ("+", i), ("-", i + 1)
+            H += 1.0, ("-", i), ("+", i + 1)
+            H += float(rng.integers(1, 4)), ("z", i), ("z", i + 1)
+        for i in range(L):
+            H += float(rng.integers(1, 3)) + 0.5, ("z", i)
+        kw = {}
+        if sym == "Z2":
+            kw = dict(symmetry="Z2", sector=int(rng.integers(0, 2)))
+        elif sym == "U1":
+            kw = dict(symmetry="U1", sector=L // 2)
+        try:
+            dtype = H.get_dtype(None)
+            D = H.hilbert_space.get_size(kw.get("sector"), kw.get("symmetry"))
+            sector_nb, symmetry_nb = H.hilbert_space.get_sector_numba(sector=kw.get("sector"), symmetry=kw.get("symmetry"))
+            cm = H.get_coupling_map(dtype=dtype, blocked=symmetry_nb == 3)
+            base = dict(coupling_map=cm, sector=sector_nb, symmetry=symmetry_nb, dtype=dtype)
+            d0, r0, c0 = configcore.build_coo_numba_core(**base)
+        except Exception as e:
+            ctx.bump("world_rejected:" + type(e).__name__)
+            continue
+        present = sorted(set(int(v) for v in c0))  # the kernels store the visited configuration ci in `cols`
+        x = rng.integers(-3, 4, size=D).astype(float)
+        y_serial = np.zeros(D)
+        configcore.matvec_numba(x, y_serial, coupling_map=cm, sector=sector_nb, symmetry=symmetry_nb)
+        for W in Ws:
+            parts = []
+            bufs = np.zeros((W, D))
+            for r in range(W):
+                dr, rr, cr = configcore.build_coo_numba_core(world_rank=r, world_size=W, **base)
+                parts.append((dr, rr, cr))
+                seen = uniq_in_order(cr)
+                desc = {"call": "build_coo_numba_core", "L": L, "symmetry": sym, "D": int(D), "world_size": W, "world_rank": r,
+                        "rows_visited": seen[:40]}
+                add(f"nl_eqb (filter (fun ci => mem ci {natlist(present)}) (stride {r}%nat {int(D)}%nat {W}%nat)) {natlist(seen)}", desc)
+                ctx.count(("world_stride", L, sym, W, r), W > 1)
+                configcore.matvec_numba(x, bufs[r], coupling_map=cm, sector=sector_nb, symmetry=symmetry_nb,
+                                        world_rank=r, world_size=W)
+            ctx.bump("world:workers", W)
+            # the serial triplets are exactly the multiset union of the workers' triplets
+            trip = lambda d, r, c: sorted(zip(r.tolist(), c.tolist(), d.tolist()))
+            allp = sorted(t for p in parts for t in trip(*p))
+            if allp != trip(d0, r0, c0):
+                ctx.violation("world:coo_workers_vs_serial",
+                              f"the COO triplets of the {W} workers are not a permutation of the serial build (L={L}, symmetry={sym})",
+                              {"call": "build_coo_numba_core", "L": L, "symmetry": sym, "world_size": W})
+            if not np.array_equal(bufs.sum(0), y_serial):
+                ctx.violation("world:matvec_workers_vs_serial",
+                              f"the sum of the {W} workers' private matvec buffers differs from the serial kernel (L={L}, symmetry={sym})",
+                              {"call": "matvec_numba", "L": L, "symmetry": sym, "world_size": W, "x": x.tolist(),
+                               "serial": y_serial.tolist(), "workers_sum": bufs.sum(0).tolist()})
+            # the public parallel build: rank-order concatenation of the workers (model: coo_parallel / all_strides)
+            if W > 1:
+                dp, rp, cp, _ = H.build_coo_data(parallel=W, **kw)
+                seenp = uniq_in_order(cp)
+                # consecutive duplicates across a worker boundary cannot occur: ranks visit disjoint rows
+                add(f"nl_eqb (filter (fun ci => mem ci {natlist(present)}) (all_strides {int(D)}%nat {W}%nat)) {natlist(seenp)}",
+                    {"call": "build_coo_data", "L": L, "symmetry": sym, "D": int(D), "parallel": W, "rows_visited": seenp[:40]})
+                ctx.count(("world_parallel_build", L, sym, W), True)
+    failed, errors = ctx.coq_cases("world", header, cases, shard=300)
+    for path, err in errors:
+        ctx.broken_obligation("correspondence:" + path.split("/")[-1], err)
+    seen_keys = set()
+    for c in failed:
+        d = info[c]
+        key = "world:" + d["call"] + ":rows"
+        if key in seen_keys:
+            continue
+        seen_keys.add(key)
+        ctx.violation(key, f"{d['call']} visits rows {d['rows_visited']} which is not range(world_rank, D, world_size) of the "
+                           "model (coq/C16/World.v): some row is computed by no worker or by two", d)
+    ctx.extra["coq_cases_world"] = len(cases)
+
+
 def run(ctx):
     ctx.extra["rule"] = RULE
     ctx.trusted_base += [
@@ -412,12 +518,13 @@ def run(ctx):
     ]
     ok = ctx.stage(translate)
     ctx.stage(kernel_shape_scan)
-    ctx.check_props(["Gen/C16_gen.vo", "C16/Proofs.vo", "C16/Props.v"])
+    ctx.check_props(["Gen/C16_gen.vo", "C16/Proofs.vo", "C16/World.vo", "C16/Props.v"])
     if ok:
         ctx.stage(correspondence)
     ctx.stage(coverage_oracle)
     ctx.stage(kernel_oracle)
     ctx.stage(builder_oracle)
+    ctx.stage(world_correspondence)
 
 
 def replay(ctx, path):
